@@ -226,6 +226,33 @@ def run(report):
             report.failure("c04-string-escapes", "a string literal does not have the value the README defines: got %r want %r" % (got, want),
                            {"op": "compile", "src": t, "observed": got, "readme": want})
     report.coverage["escape_literals"] = n_lit
+    # indented strings, in files with LF and with CRLF line ends: the leading line break and the indentation common to
+    # the non-blank lines are stripped (README); the line ends of the file are the line ends of the value
+    ind_srcs, ind_want = [], []
+    irng = C.case_rng(report.seed, 0, "c04-indented")
+    for _ in range(400 if tier == "quick" else 4000):
+        eol = irng.choice(["\n", "\r\n"])
+        delim = irng.choice(["'''", '"""'])
+        unit = irng.choice([" ", "  ", "    ", "\t"])
+        base = irng.randint(0, 2)
+        lines = [(base + irng.randint(0, 2), irng.choice(["foo", "bar baz", "q  z", "\u00e9"])) for _ in range(irng.randint(1, 4))]
+        ci = min(k for k, _ in lines)
+        closing_indent = unit * irng.choice([0, 0, 1, base])
+        last_eol = irng.random() < 0.8
+        body = eol + "".join(unit * k + t + (eol if (j < len(lines) - 1 or last_eol) else "") for j, (k, t) in enumerate(lines))
+        want = "".join(unit * (k - ci) + t + (eol if (j < len(lines) - 1 or last_eol) else "") for j, (k, t) in enumerate(lines))
+        if last_eol:
+            body += closing_indent          # the closing delimiter on a line of its own, indented or not
+        ind_srcs.append("x := " + delim + body + delim + eol)
+        ind_want.append(want)
+    icomp = jv.pbatch([{"op": "compile", "src": t} for t in ind_srcs], chunk=2000)
+    for t, want, r in zip(ind_srcs, ind_want, icomp):
+        got = r["dump"]["assignments"]["x"]["value"] if "dump" in r else {"error": r.get("error")}
+        if got != want:
+            report.failure("c04-indented-string:%s" % ("crlf" if "\r\n" in t else "lf"),
+                           "an indented string does not have the value the README defines: got %r want %r" % (got, want),
+                           {"op": "compile", "src": t, "observed": got, "readme": want})
+    report.coverage["indented_literals"] = len(ind_srcs)
     # the examples the README gives for the path functions, verbatim
     README_EXAMPLES = [('extension("/foo/bar.txt")', "txt"), ('file_name("/foo/bar.txt")', "bar.txt"), ('file_stem("/foo/bar.txt")', "bar"),
                        ('parent_directory("/foo/bar.txt")', "/foo"), ('without_extension("/foo/bar.txt")', "/foo/bar"),
